@@ -165,6 +165,10 @@ class CFG:
                             if narrowed:
                                 self._edge(src, hnode, 'exc', narrowed)
                                 hnode.meta.setdefault('caught', set()).update(narrowed)
+                                if x == ANY and 'Exception' in narrowed:
+                                    # what remains of "anything" after `except Exception`
+                                    classes.discard(x)
+                                    classes.add(model.NONEXC)
                     if not classes:
                         return
             elif c.kind in ('finally', 'with'):
